@@ -182,7 +182,9 @@ CHECKS.update({
         text="ParallelMap.tla models the Rust parallel map at channel-operation granularity (spawn of min(T,N) "
              "workers, recv/send rotation, drop, join, panic): TLC checks Order, NoSilentTruncation, OneOutstanding, "
              "ReadAhead and DropTerminates for T in 1..4, N in 0..7, every drop position and every single panicking "
-             "item. /verif/rust_harness links /repo/rust and drives the real parallel_map with gate-controlled "
+             "item; Order and ReadAhead are additionally proved for EVERY T, N, panicking set and drop position with "
+             "the TLA+ proof system (spec/proofs/ParallelMap_OrderProofs.tla, 544 obligations: each worker's single "
+             "outstanding item is the one its position in the rotation demands). /verif/rust_harness links /repo/rust and drives the real parallel_map with gate-controlled "
              "mapped functions: an edge cover of the T<=3, N<=4 state graphs (which worker finishes when, relative "
              "to next() and drop) is imposed, and every event log is validated against ParallelMap_Trace.tla. At the "
              "Python level the extension rebuilt from the working tree is compared with the pure-Python reader for "
@@ -191,7 +193,7 @@ CHECKS.update({
         design_ref="DESIGN.md 3.3, 4.4, 5/C15",
         note="Trusted: std::sync::mpsc, thread spawn/join, the gate mechanism of the harness. Task start-up is "
              "asynchronous (not gate-controlled); completion order, next() and drop are controlled.",
-        technique="TLA+ model checking + completion-order replay into the real Rust code + trace validation",
+        technique="TLA+ model checking (+ TLAPS proof of Order for all constants) + completion-order replay into the real Rust code + trace validation",
     ),
 })
 
@@ -202,7 +204,9 @@ CHECKS.update({
     "C02": dict(
         engine="ShuffleBuffer.tla, RoundRobin.tla, BatchMap.tla, LazyPool.tla, Reads_Eval.tla", category="model_checking",
         text="Each buffering stage is a step machine with nondeterministic index choices: BagPreserving / Complete are "
-             "checked by TLC for all choices (sources 0..7, buffers 1..4, inner lengths 0..3). An edge cover of every "
+             "checked by TLC for all choices (sources 0..7, buffers 1..4, inner lengths 0..3), and the shuffle buffer's bag "
+             "invariant is proved for every source length and buffer size with the TLA+ proof system "
+             "(spec/proofs/ShuffleBuffer_BagProofs.tla, 369 obligations). An edge cover of every "
              "state graph is imposed on the real shuffle_buffer / round_robin (sync and async) through scripted "
              "randomness with pull counts and outputs compared after every yield; pull/yield logs of runs with the real "
              "generator are validated by ShuffleBuffer_Trace.tla. End to end, datasets built from multi-split, nested, "
@@ -210,7 +214,7 @@ CHECKS.update({
              "in {0,1,2,>N} x file_parallelism in {1,2,>shards} (plus an injective process_record) and TLC judges "
              "yielded bag = committed bag.",
         design_ref="DESIGN.md 3.4, 4.5, 5/C02", note=_RD_NOTE,
-        technique="TLA+ model checking of the pipeline stages + scripted-choice replay + trace validation + TLC-judged end-to-end reads",
+        technique="TLA+ model checking of the pipeline stages (+ TLAPS proof of the shuffle buffer's bag invariant) + scripted-choice replay + trace validation + TLC-judged end-to-end reads (incl. overlapping and stalled passes)",
     ),
     "C03": dict(
         engine="Dataset.tla, BatchMap.tla, Reads_Eval.tla", category="model_checking",
@@ -259,7 +263,9 @@ CHECKS.update({
         text="The read-ahead of every buffering stage is a state invariant that does not mention the source length "
              "(shuffle buffer B+1, round robin B open iterators, lazy pool prefill+1, batch map P shards, Rust map T "
              "tasks), checked by TLC for sources of several lengths and for the cyclic source (Productive: a finite "
-             "take never blocks). On the real code the same quantities are measured for sources of N, 2N, 4N "
+             "take never blocks); inductive-invariant proofs of the five bounds for EVERY source length, buffer size, "
+             "thread count, failure set and drop position are checked by the TLA+ proof system (spec/proofs, 725 "
+             "obligations). On the real code the same quantities are measured for sources of N, 2N, 4N "
              "elements (identical maxima, within the model's bound), a finite take from an endless LazyPool source "
              "returns, and end to end the shard files opened while taking k examples (inotify: Python, TensorFlow "
              "and Rust threads alike) from finite and repeating datasets of 20/40/80 shards stay below a bound "
@@ -267,7 +273,7 @@ CHECKS.update({
         design_ref="DESIGN.md 5/C14",
         note="Exact constants are reported, not demanded; the alarm bound is deliberately loose "
              "(4*(shuffle+file_parallelism)+8 shards). Threaded paths are maxima over repeated runs.",
-        technique="TLA+ read-ahead invariants + pull/yield measurements on the real generators + inotify-observed file opens",
+        technique="TLA+ read-ahead invariants (TLC for small constants, TLAPS proofs for all constants) + pull/yield measurements on the real generators + inotify-observed file opens (during and after the take)",
     ),
 })
 
